@@ -36,7 +36,7 @@ var c04Log []string
 func c04Init() {
 	c04Set = jet.NewSet(jet.NewInMemLoader(), jet.WithSafeWriter(nil))
 	c04Set.AddGlobal("iv7", 7).AddGlobal("iv2", 2).AddGlobal("in3", -3).AddGlobal("iv1", 1)
-	c04Set.AddGlobal("f32v", float32(2.5)).AddGlobal("fv025", 0.25).AddGlobal("sv", "t").AddGlobal("bv", true)
+	c04Set.AddGlobal("u7", uint(7)).AddGlobal("u8v", uint8(3)).AddGlobal("f32v", float32(2.5)).AddGlobal("fv025", 0.25).AddGlobal("sv", "t").AddGlobal("bv", true)
 	c04Set.AddGlobal("isl", []int{7, 8}).AddGlobal("st", c04St{7})
 	c04Set.AddGlobal("idf", func(i int) int { return i })
 	// probe: logs its id, returns its second argument unchanged
